@@ -125,6 +125,18 @@ def fromMint (m : Mzp) (x : List Nat) : Option (List Nat) :=
         | _, _ => none
       | _, _ => none
 
+/-- one term of the 128-bit sum `top += xs[i] as u128 * (crti + 1) as u128` (overflow checked) -/
+def sumTopStep (xs crtP : List Nat) (f : Nat → Option Nat) (top i : Nat) : Option Nat :=
+  match f (crtP.getD i 0) with
+  | none => none
+  | some c =>
+    let t := top + xs.getD i 0 * c
+    if t ≥ 2 ^ 128 then none else some t
+
+/-- `top = Σ_i xs[i]·f(crt_p[i])` -/
+def sumTop (m : Mzp) (xs : List Nat) (f : Nat → Option Nat) : Option Nat :=
+  (List.range m.w).foldlM (sumTopStep xs m.crtP f) 0
+
 /-- the three branches of the quotient estimate of `_crt`; `xs[i] = x_i·(P/p_i)⁻¹ mod p_i` -/
 def qEstimate (m : Mzp) (xs : List Nat) : Option Nat :=
   let plen := m.plen
@@ -133,16 +145,9 @@ def qEstimate (m : Mzp) (xs : List Nat) : Option Nat :=
     let hi := dig m.pprod (plen - 1)
     let lo := dig m.pprod (plen - 2)
     let ptop := hi * W + lo
-    let sumTop (f : Nat → Option Nat) : Option Nat :=
-      (List.range m.w).foldlM (fun top i =>
-        match f (m.crtP.getD i 0) with
-        | none => none
-        | some c =>
-          let t := top + xs.getD i 0 * c
-          if t ≥ 2 ^ 128 then none else some t) 0
     if hi ≥ 2 ^ 56 then
       -- 0. P/p_i has bits in word [plen-1]
-      match sumTop (fun crt =>
+      match sumTop m xs (fun crt =>
           let crti := dig crt (plen - 1) * 2 ^ 32 % W + dig crt (plen - 2) / 2 ^ 32
           if crti + 1 ≥ W then none else some (crti + 1)) with
       | none => none
@@ -151,14 +156,14 @@ def qEstimate (m : Mzp) (xs : List Nat) : Option Nat :=
         if d = 0 then none else some (top / W % W / d)
     else if hi ≥ 2 ^ 8 then
       -- 1. top word only
-      match sumTop (fun crt => some (dig crt (plen - 2) + 1)) with
+      match sumTop m xs (fun crt => some (dig crt (plen - 2) + 1)) with
       | none => none
       | some top => if hi = 0 then none else some (top / W % W / hi)
     else
       -- 2. shift left by 32 bits
       if plen < 3 then none                                        -- crt[plen - 3]
       else
-        match sumTop (fun crt =>
+        match sumTop m xs (fun crt =>
             let crti := dig crt (plen - 2) * 2 ^ 32 % W + dig crt (plen - 3) / 2 ^ 32
             if crti + 1 ≥ W then none else some (crti + 1)) with
         | none => none
